@@ -17,6 +17,7 @@ Not in this machine: UDF (partition accounting), El Torito catalog, isohybrid.  
 import Pycdlib.Model.Pack
 import Pycdlib.Model.Layout
 import Pycdlib.Model.PathTable
+import Pycdlib.Model.Susp
 namespace Pycdlib.Iso
 open Pycdlib
 
@@ -46,7 +47,7 @@ deriving Repr, DecidableEq
 
 structure State where
   fixed : Nat               -- sectors in front of the path tables: system area, descriptors, version descriptor, ER sector
-  ce : Nat                  -- Rock Ridge continuation blocks
+  ceb : List Susp.Block     -- Rock Ridge continuation blocks with their entries (offset, length), `pvd.rr_ce_blocks`
   dirs : List Dir
   pt0 : PathTable.PT        -- ISO9660 path tables
   pt1 : PathTable.PT        -- Joliet path tables (⟨0,0⟩ when there is no Joliet descriptor)
@@ -67,12 +68,12 @@ def inoSectors (is : List Ino) : Nat := (is.map fun i => sectorsOf i.len + feOf 
 def fidBlocks (info : Nat) : Nat := (info + 2047) / BS
 def udirSectors (us : List UDir) : Nat := (us.map fun u => 1 + fidBlocks u.info).sum
 def layoutEnd (s : State) : Nat :=
-  s.fixed + 2 * s.pt0.extents + 2 * s.pt1.extents + dirSectors s.dirs + s.ce + inoSectors s.inos + udirSectors s.udirs + s.ufree
+  s.fixed + 2 * s.pt0.extents + 2 * s.pt1.extents + dirSectors s.dirs + s.ceb.length + inoSectors s.inos + udirSectors s.udirs + s.ufree
 
 /-- the objects in the order `_reshuffle_extents` places them, as sector counts -/
 def layoutCounts (s : State) : List Nat :=
   [s.fixed, s.pt0.extents, s.pt0.extents, s.pt1.extents, s.pt1.extents] ++ s.dirs.map (fun d => d.dataLen / BS)
-    ++ List.replicate s.ce 1 ++ s.inos.map (fun i => sectorsOf i.len + feOf i) ++ s.udirs.map (fun u => 1 + fidBlocks u.info)
+    ++ List.replicate s.ceb.length 1 ++ s.inos.map (fun i => sectorsOf i.len + feOf i) ++ s.udirs.map (fun u => 1 + fidBlocks u.info)
     ++ List.replicate s.ufree 1
 
 /-- update the first directory with the given id; `none` when there is none or the update refuses -/
@@ -127,10 +128,31 @@ def dropUDir (id : Nat) : List UDir → Option (List UDir × Nat)
     if u.id = id then (if fidBlocks u.info = 1 then some (us, 2 * BS) else none)
     else (dropUDir id us).map fun r => (u :: r.1, r.2)
 
+/-- `headervd.add_rr_ce_entry`: the first block with a gap that fits (`RockRidgeContinuationBlock.add_entry`, Susp.addEntry),
+else a new block — which costs one block of volume space -/
+def ceAdd (len : Nat) : List Susp.Block → List Susp.Block × Nat
+  | [] => ([match Susp.addEntry BS [] len with
+            | some r => r.2
+            | none => []], BS)
+  | b :: rest =>
+    match Susp.addEntry BS b len with
+    | some r => (r.2 :: rest, 0)
+    | none => (b :: (ceAdd len rest).1, (ceAdd len rest).2)
+
+/-- `headervd.remove_rr_ce_entry`: the entry leaves its block; a block without entries is given back -/
+def ceFree (idx off len : Nat) : List Susp.Block → Option (List Susp.Block × Nat)
+  | [] => none
+  | b :: rest =>
+    if idx = 0 then
+      if b.contains (off, len) then
+        (if (Susp.removeEntry b off len).isEmpty then some (rest, BS) else some (Susp.removeEntry b off len :: rest, 0))
+      else none
+    else (ceFree (idx - 1) off len rest).map fun r => (b :: r.1, r.2)
+
 inductive AddPart where
   | insert (dir idx len : Nat)                          -- a record into a directory
   | mkdir (tree id ptlen : Nat) (lens : List Nat)       -- a new directory extent (dot, dotdot) and its path table record
-  | ceBlock                                             -- a new continuation block
+  | ceEntry (len : Nat)                                 -- a continuation area of `len` bytes for a new record
   | vd                                                  -- one more volume descriptor (duplicate_pvd)
   | ufid (dir len : Nat)                                -- a File Identifier Descriptor into a UDF directory
   | umkdir (id : Nat)                                   -- the File Entry of a new UDF directory
@@ -140,7 +162,7 @@ deriving Repr
 inductive RmPart where
   | remove (dir idx : Nat)
   | rmdir (tree id ptlen : Nat)
-  | ceBlock
+  | ceFree (idx off len : Nat)                          -- the continuation area of a removed record
   | ufid (dir len : Nat)
   | urmdir (id : Nat)
   | ufe
@@ -158,7 +180,7 @@ def addPart (s : State) : AddPart → Option (State × Nat)
       let s1 := setPt s tree r.1
       some ({ s1 with dirs := s1.dirs ++ [{ id := id, lens := lens, dataLen := BS }] }, BS + (if r.2 then 4 * BS else 0))
     else none
-  | .ceBlock => some ({ s with ce := s.ce + 1 }, BS)
+  | .ceEntry len => some ({ s with ceb := (ceAdd len s.ceb).1 }, (ceAdd len s.ceb).2)
   | .vd => some ({ s with fixed := s.fixed + 1 }, BS)
   | .ufid dir len => (updUDir dir (addFid len) s.udirs).map fun r => ({ s with udirs := r.1 }, r.2)
   | .umkdir id => some ({ s with udirs := s.udirs ++ [{ id := id, info := 0 }] }, BS)
@@ -174,7 +196,7 @@ def rmPart (s : State) : RmPart → Option (State × Nat)
         some ({ s1 with dirs := ds }, dl + (if shrank then 4 * BS else 0))
       | _, _ => none
     else none
-  | .ceBlock => if 0 < s.ce then some ({ s with ce := s.ce - 1 }, BS) else none
+  | .ceFree idx off len => (ceFree idx off len s.ceb).map fun r => ({ s with ceb := r.1 }, r.2)
   | .ufid dir len => (updUDir dir (rmFid len) s.udirs).map fun r => ({ s with udirs := r.1 }, r.2)
   | .urmdir id => (dropUDir id s.udirs).map fun r => ({ s with udirs := r.1 }, r.2)
   | .ufe => if 0 < s.ufree then some ({ s with ufree := s.ufree - 1 }, BS) else none
@@ -271,7 +293,7 @@ def Named (s : State) : Prop := ∀ i ∈ s.inos, 0 < i.links
 
 /-- `PyCdlib.new()` without extensions: system area, PVD, terminator, version descriptor; path tables; the root -/
 def init0 : State :=
-  { fixed := 19, ce := 0, dirs := [{ id := 0, lens := [34, 34], dataLen := BS }],
+  { fixed := 19, ceb := [], dirs := [{ id := 0, lens := [34, 34], dataLen := BS }],
     pt0 := { size := 10, extents := 2 }, pt1 := { size := 0, extents := 0 }, inos := [], udirs := [], ufree := 0, space := 24 }
 
 /-- executable form of `Inv` (what the driver evaluates on a state the harness read off a parsed image);
@@ -284,17 +306,26 @@ def ptInvB (p : PathTable.PT) : Bool := p.extents == PathTable.cdiv p.size 4096 
 def invB (s : State) : Bool :=
   s.space == layoutEnd s && s.dirs.all dirOkB && ptInvB s.pt0 && ptInvB s.pt1
 
+/-- executable form of the continuation-block invariant (`Props/C08Alloc.cebOkB_iff`) -/
+def blockOkB (bs : Nat) : Nat → Susp.Block → Bool
+  | lo, [] => decide (lo ≤ bs)
+  | lo, (o, l) :: rest => decide (lo ≤ o) && blockOkB bs (o + l) rest
+
+def cebOkB (s : State) : Bool := s.ceb.all (blockOkB BS 0)
+
 /-! ### protocol encoding (test infrastructure) -/
 
 def encList (l : List Nat) : String := if l.isEmpty then "-" else ".".intercalate (l.map toString)
 def encDir (d : Dir) : String := s!"{d.id}:{d.dataLen}:{encList d.lens}"
 def encIno (i : Ino) : String := s!"{i.id}:{i.len}:{i.links}:{i.nudf}"
 def encUDir (u : UDir) : String := s!"{u.id}:{u.info}"
+def encBlock (b : Susp.Block) : String := if b.isEmpty then "e" else ".".intercalate (b.map fun e => s!"{e.1}:{e.2}")
+def encCeb (bs : List Susp.Block) : String := if bs.isEmpty then "-" else ",".intercalate (bs.map encBlock)
 def encState (s : State) : String :=
   let ds := if s.dirs.isEmpty then "-" else ",".intercalate (s.dirs.map encDir)
   let is := if s.inos.isEmpty then "-" else ",".intercalate (s.inos.map encIno)
   let us := if s.udirs.isEmpty then "-" else ",".intercalate (s.udirs.map encUDir)
-  s!"{s.fixed};{s.ce};{s.space};{s.pt0.size},{s.pt0.extents};{s.pt1.size},{s.pt1.extents};{ds};{is};{us};{s.ufree}"
+  s!"{s.fixed};{encCeb s.ceb};{s.space};{s.pt0.size},{s.pt0.extents};{s.pt1.size},{s.pt1.extents};{ds};{is};{us};{s.ufree}"
 
 def decList (t : String) : Option (List Nat) := if t = "-" then some [] else (t.splitOn ".").mapM (·.toNat?)
 
@@ -321,10 +352,17 @@ def decUDir (x : String) : Option UDir :=
   | [i, n] => do pure { id := ← i.toNat?, info := ← n.toNat? }
   | _ => none
 
+def decEntry (x : String) : Option (Nat × Nat) :=
+  match x.splitOn ":" with
+  | [o, l] => do pure ((← o.toNat?), (← l.toNat?))
+  | _ => none
+
+def decBlock (x : String) : Option Susp.Block := if x = "e" then some [] else (x.splitOn ".").mapM decEntry
+
 def decState (t : String) : Option State :=
   match t.splitOn ";" with
   | [f, c, sp, p0, p1, ds, is, us, uf] => do
-    pure { fixed := ← f.toNat?, ce := ← c.toNat?, space := ← sp.toNat?, pt0 := ← decPt p0, pt1 := ← decPt p1,
+    pure { fixed := ← f.toNat?, ceb := ← decMany decBlock "," c, space := ← sp.toNat?, pt0 := ← decPt p0, pt1 := ← decPt p1,
            dirs := ← decMany decDir "," ds, inos := ← decMany decIno "," is, udirs := ← decMany decUDir "," us,
            ufree := ← uf.toNat? }
   | _ => none
@@ -333,7 +371,7 @@ def decAddPart (x : String) : Option AddPart :=
   match x.splitOn ":" with
   | ["i", d, i, l] => do pure (AddPart.insert (← d.toNat?) (← i.toNat?) (← l.toNat?))
   | ["m", tr, i, pl, ls] => do pure (AddPart.mkdir (← tr.toNat?) (← i.toNat?) (← pl.toNat?) (← decList ls))
-  | ["c"] => some AddPart.ceBlock
+  | ["k", l] => do pure (AddPart.ceEntry (← l.toNat?))
   | ["v"] => some AddPart.vd
   | ["f", d, l] => do pure (AddPart.ufid (← d.toNat?) (← l.toNat?))
   | ["u", i] => do pure (AddPart.umkdir (← i.toNat?))
@@ -344,7 +382,7 @@ def decRmPart (x : String) : Option RmPart :=
   match x.splitOn ":" with
   | ["x", d, i] => do pure (RmPart.remove (← d.toNat?) (← i.toNat?))
   | ["d", tr, i, pl] => do pure (RmPart.rmdir (← tr.toNat?) (← i.toNat?) (← pl.toNat?))
-  | ["c"] => some RmPart.ceBlock
+  | ["z", i, o, l] => do pure (RmPart.ceFree (← i.toNat?) (← o.toNat?) (← l.toNat?))
   | ["f", d, l] => do pure (RmPart.ufid (← d.toNat?) (← l.toNat?))
   | ["u", i] => do pure (RmPart.urmdir (← i.toNat?))
   | ["e"] => some RmPart.ufe
@@ -374,6 +412,6 @@ def trace : State → List Op → List String
   | s, op :: ops =>
     match step s op with
     | none => ["refused"]
-    | some s1 => (encState s1 ++ (if invB s1 then "" else "!inv")) :: trace s1 ops
+    | some s1 => (encState s1 ++ (if invB s1 && cebOkB s1 then "" else "!inv")) :: trace s1 ops
 
 end Pycdlib.Iso
